@@ -71,16 +71,17 @@ type NetMsg struct {
 
 // VNode is one consensus node: real ledger on its own SimDisk, real vbft.Server.
 type VNode struct {
-	I      int // 0-based; consensus index is I+1
-	Acc    *account.Account
-	Chain  *Chain
-	Srv    *vbft.Server
-	P2P    *simP2P
-	Pool   *actor.PID
-	PoolTx []*types.Transaction // what the tx-pool stub offers to proposals
-	Byz    bool
-	Down   bool
-	gen    int
+	I       int // 0-based; consensus index is I+1
+	Acc     *account.Account
+	Chain   *Chain
+	Srv     *vbft.Server
+	P2P     *simP2P
+	Pool    *actor.PID
+	PoolTx  []*types.Transaction // what the tx-pool stub offers to proposals
+	Byz     bool
+	Crashed bool // crashed at least once in this run (counts as faulty from then on)
+	Down    bool
+	gen     int
 }
 
 // VbftNet is the W-vbft world.
@@ -99,6 +100,7 @@ type VbftNet struct {
 	// OnSend lets a property intercept traffic (e.g. a Byzantine sender); return false to swallow.
 	OnSend func(m *NetMsg) bool
 	Sent   int
+	dead   []*vbft.Server // stopped servers (late timer callbacks are still drained at shutdown)
 }
 
 type simP2P struct {
@@ -106,18 +108,18 @@ type simP2P struct {
 	node int
 }
 
-func (p *simP2P) Connect(addr string)                   {}
-func (p *simP2P) GetHostInfo() *peer.PeerInfo           { return nil }
-func (p *simP2P) GetID() p2pcommon.PeerId               { return PeerIDOf(p.node) }
-func (p *simP2P) GetNeighbors() []*peer.Peer            { return nil }
-func (p *simP2P) GetNeighborAddrs() []p2pcommon.PeerAddr { return nil }
-func (p *simP2P) GetConnectionCnt() uint32              { return uint32(p.net.N - 1) }
-func (p *simP2P) GetMaxPeerBlockHeight() uint64         { return 0 }
-func (p *simP2P) GetPeer(id p2pcommon.PeerId) *peer.Peer { return nil }
-func (p *simP2P) SetHeight(uint64)                      {}
+func (p *simP2P) Connect(addr string)                     {}
+func (p *simP2P) GetHostInfo() *peer.PeerInfo             { return nil }
+func (p *simP2P) GetID() p2pcommon.PeerId                 { return PeerIDOf(p.node) }
+func (p *simP2P) GetNeighbors() []*peer.Peer              { return nil }
+func (p *simP2P) GetNeighborAddrs() []p2pcommon.PeerAddr  { return nil }
+func (p *simP2P) GetConnectionCnt() uint32                { return uint32(p.net.N - 1) }
+func (p *simP2P) GetMaxPeerBlockHeight() uint64           { return 0 }
+func (p *simP2P) GetPeer(id p2pcommon.PeerId) *peer.Peer  { return nil }
+func (p *simP2P) SetHeight(uint64)                        {}
 func (p *simP2P) Send(*peer.Peer, p2ptypes.Message) error { return nil }
-func (p *simP2P) GetOutConnRecordLen() uint             { return 0 }
-func (p *simP2P) IsOwnAddress(addr string) bool         { return false }
+func (p *simP2P) GetOutConnRecordLen() uint               { return 0 }
+func (p *simP2P) IsOwnAddress(addr string) bool           { return false }
 
 func (p *simP2P) Broadcast(msg p2ptypes.Message) {
 	for j := 0; j < p.net.N; j++ {
@@ -286,6 +288,19 @@ func (n *VbftNet) openLedger(nd *VNode) error {
 	return nil
 }
 
+// ReopenLedger opens the node's ledger again on its disk image (after a crash).
+func (n *VbftNet) ReopenLedger(nd *VNode) error { return n.openLedger(nd) }
+
+// Enqueue puts a p2p message from node `from` to node `to` on the wire.
+func (n *VbftNet) Enqueue(from, to int, msg p2ptypes.Message) { n.enqueue(from, to, msg) }
+
+// SwitchLedger makes nd's ledger the process-global one.
+func SwitchLedger(nd *VNode) {
+	if nd.Chain.Ledger != nil {
+		ledger.DefLedger = nd.Chain.Ledger
+	}
+}
+
 // StartNode creates and starts the real vbft server of a node.
 func (n *VbftNet) StartNode(nd *VNode) error {
 	nd.gen++
@@ -346,17 +361,21 @@ func (n *VbftNet) StopNode(nd *VNode) {
 				break
 			}
 		}
+		nd.Srv.SimDrain()
 		if mine == nil {
 			break
 		}
 		n.Switch(mine.A)
 		n.Sched.Release(mine)
 	}
+	Quiesce()
+	nd.Srv.SimDrain()
 	nd.Srv.SimFinishStop()
 	if nd.Pool != nil {
 		nd.Pool.Stop()
 	}
 	Quiesce()
+	n.dead = append(n.dead, nd.Srv)
 	nd.Srv = nil
 }
 
@@ -369,8 +388,18 @@ func (n *VbftNet) Shutdown() {
 		}
 	}
 	n.Sched.Off()
-	Quiesce()
-	time.Sleep(time.Second)
+	for k := 0; k < 4; k++ {
+		Quiesce()
+		for _, nd := range n.Nodes {
+			if nd.Srv != nil {
+				nd.Srv.SimDrain()
+			}
+		}
+		for _, s := range n.dead {
+			s.SimDrain()
+		}
+		time.Sleep(time.Second)
+	}
 	Quiesce()
 	for _, nd := range n.Nodes {
 		if nd.Srv != nil {
